@@ -125,6 +125,39 @@ theorem index_modes_agree (v : Variant) (src : Field) (idx : List Int) :
   · intro e he
     refine ⟨?_, fun t => ?_, ?_⟩ <;> simp [applyIndexField, he, bind, Except.bind]
 
+/-- `validate_filter`: a numeric filter acts exactly as the boolean filter "entry ≠ 0", at field and at frame level -/
+theorem numeric_filter_is_nonzero_test (v : Variant) (xs : List Int) :
+    (∀ src t ip, applyFilterField v src (.num xs) t ip =
+      applyFilterField v src (.bool (xs.map (fun x => x != 0))) t ip) ∧
+    (∀ st src ddf, dfApplyFilter v st src (.num xs) ddf =
+      dfApplyFilter v st src (.bool (xs.map (fun x => x != 0))) ddf) :=
+  ⟨fun _ _ _ => rfl, fun _ _ _ => rfl⟩
+
+example : validateFilter (.num [0, 2, 0, -1]) = .ok [false, true, false, true] := by rfl
+
+/-- `Session.apply_filter` / `apply_index` with an array source (after fix NC09c): the spec result is returned and
+    appended to `dest`; a filter of another length / a subscript out of range raises IndexError -/
+theorem session_array_ops (src : List Int) (dest : Option (List Int)) :
+    (∀ flt bs, validateFilter flt = .ok bs →
+      sessionFilterArray flt src dest =
+        if bs.length = src.length then .ok (filterBy bs src, dest.map (· ++ filterBy bs src))
+        else .error (.oob "boolean index did not match indexed array")) ∧
+    (∀ idx, sessionIndexArray idx src dest =
+      match gather src idx with
+      | some r => .ok (r, dest.map (· ++ r))
+      | none => .error (.oob "data[index]")) := by
+  constructor
+  · intro flt bs hv
+    by_cases hl : bs.length = src.length
+    · simp [sessionFilterArray, hv, boolIndex, hl, boolSelect_eq, bind, Except.bind, pure, Except.pure]
+    · simp [sessionFilterArray, hv, boolIndex, hl, bind, Except.bind]
+  · intro idx
+    cases hg : gather src idx with
+    | some r => simp [sessionIndexArray, fancyIndex_ok src idx r hg, bind, Except.bind, pure, Except.pure]
+    | none => simp [sessionIndexArray, fancyIndex_err src idx hg, bind, Except.bind]
+
+example : sessionFilterArray (.num [0, 1, 0, 1]) [10, 20, 30, 40] (some [5]) = .ok ([20, 40], some [5, 20, 40]) := by rfl
+
 /-- what is stored is the spec: a payload holding column `c` is filtered to a payload holding `c.filter bs`
     (numeric and indexed string fields alike), and a filter of the wrong length is rejected -/
 theorem filter_payload_spec (p : Payload) (c : Column) (bs : List Bool) (h : Encodes p c) :
